@@ -192,5 +192,21 @@ PROPS["C19"] = {
     "trusted_base": ["github.com/vicanso/upstream health checking", "elton proxy middleware, httputil.ReverseProxy"],
 }
 
+PROPS["C08"] = {
+    "suites": [{"name": "sched", "stateful": True, "quick": 1000, "thorough": 20000, "thorough_seeds": 3},
+               {"name": "crash", "stateful": True, "quick": 25, "thorough": 600, "thorough_seeds": 3}],
+    "trip_re": "served_altered.*|served_after_original_expiry|age_reset.*|not_started|client_error|served_stale|wrong_body_for_key",
+    "rule": _SCHED_RULE + " crash: a CHILD PROCESS serves a 60-step history (GETs on 8 keys with an LRU of 4, ticks, purges, bursts of 3 "
+            "concurrent writers; lifetimes 2-5 s, every 7th answer uncacheable) through the real request path with a REAL badger "
+            "directory; the parent SIGKILLs it at PRNG-chosen output lines plus 0-3 ms jitter (so kills land inside fetches, drains, "
+            "saves and purges), restarts it on the same directory, up to 4 kills per trial. Every upstream answer is reported before it "
+            "is returned, every client response after; the Lean monitor checks each hit after a kill: body and key are those of a "
+            "reported cacheable upstream answer, not past its original expiry, Age continuing, status 200, and that pike starts. "
+            "non-trivial = responses, kills, restarts; distinct = distinct histories.",
+    "assumptions": ["the store is an atomic map that never returns bytes that were not written to it (Sys.Honest); badger's own durability and recovery are trusted and exercised, not proved",
+                    "1 s tolerance between the reported upstream time and createdAt (wall-clock granularity)"],
+    "trusted_base": _SYS_TRUSTED + ["dgraph-io/badger v3"],
+}
+
 NOT_APPLICABLE = {}
 HOOK_COMMITS = ["ca43a57", "6332ff2"]
